@@ -1,23 +1,23 @@
 /-
-Tie 2 (facts): the set of numeric literals and the multiset of comparison/boolean operators of the Go functions below, REGENERATED from /repo on
+Tie 2 (facts): the set of numeric literals of the Go functions below, REGENERATED from /repo on
 every run (Gen/Facts.lean), are the ones the hand-written model was written against (C17).
-A changed constant, a flipped or dropped comparison in one of these functions breaks the `decide` below even where no sampled
+A changed constant in one of these functions breaks the `decide` below even where no sampled
 input shows it; renaming and reordering of statements do not.
 -/
 import SpatialId.Gen.Facts
 namespace SpatialId.FactsBitAlt
 open SpatialId
 
-/-- literals and comparisons of `transform.calcBitIndex` -/
+/-- numeric literals of `transform.calcBitIndex` -/
 theorem facts_transform_calcBitIndex :
-    Gen.funcFacts.lookup "transform.calcBitIndex" = some ["i:0", "i:1", "i:2", "op:<", "op:>="] := by decide
+    Gen.funcFacts.lookup "transform.calcBitIndex" = some ["i:0", "i:1", "i:2"] := by decide
 
-/-- literals and comparisons of `transform.convertVerticallIDToBit` -/
+/-- numeric literals of `transform.convertVerticallIDToBit` -/
 theorem facts_transform_convertVerticallIDToBit :
-    Gen.funcFacts.lookup "transform.convertVerticallIDToBit" = some ["i:1", "i:2", "op:<", "op:=="] := by decide
+    Gen.funcFacts.lookup "transform.convertVerticallIDToBit" = some ["i:1", "i:2"] := by decide
 
-/-- literals and comparisons of `transform.convertBitToVerticalID` -/
+/-- numeric literals of `transform.convertBitToVerticalID` -/
 theorem facts_transform_convertBitToVerticalID :
-    Gen.funcFacts.lookup "transform.convertBitToVerticalID" = some ["i:0", "i:1", "i:2", "op:!=", "op:<"] := by decide
+    Gen.funcFacts.lookup "transform.convertBitToVerticalID" = some ["i:0", "i:1", "i:2"] := by decide
 
 end SpatialId.FactsBitAlt
